@@ -459,6 +459,7 @@ def errClass : Cli.Err → String
   | .colorParse _ => "color-parse" | .colorInvalidUtf8 => "invalid-utf8"
   | .couldNotReadFromStdin => "no-stdin" | .colorArgRequired => "color-arg-required"
   | .couldNotParseNumber _ => "number" | .noColorPickerFound => "no-picker" | .stdoutClosed => "stdout-closed"
+  | .gradientNumber => "other" | .gradientColorCount => "other"
 
 /-- `cli <sub> <nargs> args… <ncolors> colors… <nstdin> lines…` → `ok <exit> <stdout> <class> <message>` -/
 def opCli (args : List String) : String :=
@@ -477,7 +478,7 @@ def opCli (args : List String) : String :=
               match parseStdin ns rest3 with
               | some (lines, []) =>
                 let o := Cli.run sub cargs cols lines
-                let stdout := String.ofList (o.lines.flatMap fun l => l.toList ++ ['\n'])
+                let stdout := String.ofList (o.lines.flatMap fun l => l.toList ++ ['\n']) ++ o.tail
                 let (cls, msg) := match o.err with
                   | none => ("-", "")
                   | some e => (errClass e, e.message)
